@@ -223,6 +223,11 @@ func ropeLess(a, b *Rope) *term.T {
 		if pa.t != nil {
 			ta = pa.t
 		} else {
+			if c := pa.s[oa]; c < '0' {
+				return term.True
+			} else if c > '9' {
+				return term.False
+			}
 			if len(pa.s)-oa < decWidth {
 				panic(unsupported("ordering of misaligned symbolic names"))
 			}
@@ -235,6 +240,11 @@ func ropeLess(a, b *Rope) *term.T {
 		if pb.t != nil {
 			tb = pb.t
 		} else {
+			if c := pb.s[ob]; c < '0' {
+				return term.False
+			} else if c > '9' {
+				return term.True
+			}
 			if len(pb.s)-ob < decWidth {
 				panic(unsupported("ordering of misaligned symbolic names"))
 			}
